@@ -10,6 +10,8 @@
 #include "momo/Array.h"
 #include "momo/SegmentedArray.h"
 #include "momo/DataTable.h"
+#include "momo/TreeSet.h"
+#include "momo/HashSet.h"
 using namespace momo;
 typedef MemManagerDefault MMD;
 struct MMS : HashMultiMapSettings { static const CheckMode checkMode = CheckMode::exception; static const bool checkKeyVersion = true; static const bool checkValueVersion = true; };
@@ -170,8 +172,93 @@ static std::string runDTH(std::vector<std::pair<std::string, Args>>& ops)
 	return out + "| " + vers() + " | " + contents();
 }
 
+// ---------------------------------------------------------------------------------------------- generated guards (T-gen validation)
+// `g <what> args`: run the REAL function whose guard prefix was translated by cxx2coq on exactly these inputs; one outcome token:
+//   A accepted, R std::invalid_argument and nothing changed, X another exception and nothing changed, C! something changed
+struct HSS : HashSetSettings { static const CheckMode checkMode = CheckMode::exception; static const bool checkVersion = true; };
+struct TSS : TreeSetSettings { static const CheckMode checkMode = CheckMode::exception; static const bool checkVersion = true; };
+typedef TreeSet<int, TreeTraits<int>, MMD, TreeSetItemTraits<int, MMD>, TSS> TSG;
+template<class Snap, class F> static std::string outcome(Snap snap, F f)
+{
+	std::string before = snap();
+	try { f(); }
+	catch (const std::invalid_argument&) { return snap() == before ? "R" : "C!rejected-call-changed-state"; }
+	catch (const std::exception&) { return snap() == before ? "X" : "C!exception-changed-state"; }
+	return "A";
+}
+template<class A> static std::string gArr(const std::string& what, const std::vector<long long>& a)
+{
+	A arr; for (long long i = 0; i < a[0]; ++i) arr.AddBack(int(i * 3 + 1));
+	auto snap = [&] { std::string s; for (size_t i = 0; i < arr.GetCount(); ++i) s += std::to_string(arr[i]) + ","; return s; };
+	if (what == "rm") return outcome(snap, [&] { size_t c = arr.GetCount(); arr.Remove(size_t(a[1]), size_t(a[2])); if (arr.GetCount() != c - size_t(a[2])) throw std::runtime_error("count"); });
+	if (what == "insn") return outcome(snap, [&] { arr.Insert(size_t(a[1]), size_t(a[2]), 7); });
+	if (what == "idx") return outcome(snap, [&] { volatile int x = arr[size_t(a[1])]; (void)x; });
+	if (what == "rmback") return outcome(snap, [&] { arr.RemoveBack(size_t(a[1])); });
+	if (what == "adv") { auto it = arr.GetBegin(); it += ptrdiff_t(a[1]); std::string r = outcome(snap, [&] { it += ptrdiff_t(a[2]); });
+		return r == "A" ? "A=" + std::to_string((long long)(it - arr.GetBegin())) : r; }
+	if (what == "defadv") { typename A::Iterator it; return outcome(snap, [&] { it += ptrdiff_t(a[1]); }); }
+	if (what == "arrow") { auto it = arr.GetBegin(); it += ptrdiff_t(a[1]); return outcome(snap, [&] { (void)it.operator->(); }); }
+	if (what == "defarrow") { typename A::Iterator it; return outcome(snap, [&] { (void)it.operator->(); }); }
+	return "?what";
+}
+static std::string gOther(const std::string& what, const std::vector<long long>& a)
+{
+	auto none = [] { return std::string(); };
+	if (what == "kself" || what == "kcont")
+	{
+		size_t cell[3] = { 0, 0, 0 };
+		typedef internal::VersionKeeper<HSS, true> K;
+		cell[1] = cell[2] = size_t(a[1]);                       // the snapshot the keeper takes
+		K k = (a[0] == 0) ? K() : K(&cell[a[0]]);
+		if (what == "kself") { cell[1] = cell[2] = size_t(a[2]); return outcome(none, [&] { k.Check(); }); }
+		cell[1] = size_t(a[2]); cell[2] = size_t(a[3]);
+		return outcome(none, [&] { k.Check(&cell[a[4]], a[5] != 0); });
+	}
+	if (what == "mmrm")
+	{
+		MM m; m.Add(1, 10); if (a[0] == 0) m.InsertKey(5); for (long long j = 0; j < a[0]; ++j) m.Add(5, int(50 + j));
+		auto snap = [&] { return mmContents(m); };
+		return outcome(snap, [&] { m.Remove(m.Find(5), size_t(a[1])); });
+	}
+	if (what == "selrm" || what == "selidx" || what == "row" || what == "tins" || what == "tupd")
+	{
+		DT t(DCL({ valCol })); for (long long j = 0; j < a[0]; ++j) t.AddRow(valCol = int(j * 7 + 1));
+		auto sel = t.Select();
+		auto snap = [&] { std::string s; for (auto r : t) s += std::to_string(r[valCol]) + ","; s += "|" + std::to_string(sel.GetCount()); return s; };
+		if (what == "selrm") return outcome(snap, [&] { size_t c = sel.GetCount(); sel.Remove(size_t(a[1]), size_t(a[2])); if (sel.GetCount() != c - size_t(a[2])) throw std::runtime_error("count"); });
+		if (what == "selidx") return outcome(snap, [&] { (void)sel[size_t(a[1])]; });
+		if (what == "row") return outcome(snap, [&] { (void)t[size_t(a[1])]; });
+		if (what == "tins") return outcome(snap, [&] { t.Insert(size_t(a[1]), t.NewRow(valCol = 999)); });
+		return outcome(snap, [&] { t.Update(size_t(a[1]), t.NewRow(valCol = 998)); });
+	}
+	if (what == "tinc" || what == "tarrow" || what == "tdefinc")
+	{
+		TSG t; for (long long j = 0; !a.empty() && j < a[0]; ++j) t.Insert(int(j));
+		if (what == "tdefinc") { TSG::ConstIterator it; return outcome(none, [&] { ++it; }); }
+		TSG::ConstIterator it = t.GetBegin(); for (long long j = 0; j < a[1]; ++j) ++it;          // position a[1] <= count (count = end)
+		if (what == "tinc") return outcome(none, [&] { ++it; });
+		return outcome(none, [&] { (void)it.operator->(); });
+	}
+	return "?what";
+}
+
 static std::string dispatch(const std::string& line)
 {
+	if (line.compare(0, 2, "g ") == 0)
+	{
+		std::istringstream gs(line); std::string g, what, k; gs >> g >> what;
+		std::vector<long long> a; std::string tok;
+		if (what == "rm" || what == "insn" || what == "idx" || what == "rmback" || what == "adv" || what == "defadv" || what == "arrow" || what == "defarrow")
+		{
+			gs >> k; while (gs >> tok) a.push_back((long long)std::stoull(tok[0] == '-' ? tok : tok, nullptr, 10) * 1), (void)0;
+			if (k == "ar") return gArr<AR>(what, a);
+			if (k == "ai") return gArr<ARI>(what, a);
+			if (k == "sa") return gArr<SA>(what, a);
+			return "?kind";
+		}
+		while (gs >> tok) a.push_back((long long)std::stoull(tok, nullptr, 10));
+		return gOther(what, a);
+	}
 	std::istringstream is(line); std::string kind, tok; is >> kind;
 	std::vector<std::pair<std::string, Args>> ops;
 	while (is >> tok)
